@@ -34,6 +34,14 @@ def run_one(m, with_tests):
     try:
         repo = os.path.join(d, 'repo')
         for ed in m['edits']:
+            if 'revert' in ed:
+                # undo one fix commit of /repo in the scratch copy (the defect it repaired must be reported again)
+                d1 = subprocess.run(['git', '-C', REPO, 'diff', ed['revert'] + '~1', ed['revert']], stdout=subprocess.PIPE)
+                r1 = subprocess.run(['patch', '-p1', '-R', '-s', '-d', repo], input=d1.stdout, stdout=subprocess.PIPE,
+                                    stderr=subprocess.STDOUT)
+                if r1.returncode != 0:
+                    return m, 'MUTANT-STALE', 'revert of %s does not apply: %s' % (ed['revert'], r1.stdout.decode()[-200:])
+                continue
             p = os.path.join(repo, ed['file'])
             s = open(p).read()
             n = s.count(ed['old'])
